@@ -190,4 +190,7 @@ def generate(seed, tier, family=None):
     if not family:
         # connected sockets moved in mid-stream keep their MSS (MTU 500 / 800 / 1400 / default)
         out += tg.generate_moved(seed + 23, tier, 40 if tier == "quick" else 1200)
+        # segments held by a scripted delayer and overtaken by later ones (reordering without loss) are forwarded
+        # unaltered too, in both directions, small and default MSS (a share of C05's delay family)
+        out += tg.generate_delay(seed + 29, tier, scale=0.25, prefix="ty")
     return out
